@@ -7,7 +7,7 @@
 
 use crate::core::*;
 use crate::explore::Chooser;
-use crate::props::c01::{debug_diff, family_tag, is_read_str_len0_panic, kind_ok_tag, read_lib, ref_self_check, space_rule, FAMILY_TAGS, F_EMPTY, OK_KIND_TAGS};
+use crate::props::c01::{debug_diff, families, family_tag, is_read_str_len0_panic, kind_ok_tag, read_lib, ref_self_check, require_families, space_rule, F_EMPTY, OK_KIND_TAGS};
 use crate::props::gdsgen::*;
 use crate::refmodel::gdsstream as gs;
 use serde_json::{json, Value};
@@ -110,7 +110,7 @@ impl CaseDriver for C03 {
     fn describe(&self, t: Tier) -> Describe {
         Describe {
             rule: format!(
-                "streams = reference_encoder(value) ++ trailing bytes, for {} Dates deviate over {{witness, all 0, all -1, all MIN, all MAX, calendar, impossible/mixed}}. Trailing bytes after ENDLIB (costed, 14 alternatives): 1/2/3/4/2044/2048 zero bytes, 1/2/3/2048 bytes 0xFF, a second ENDLIB, a HEADER record, a whole structure, an undefined record. Expected-error half (costed, 37 alternatives): each of LIBDIRSIZE, SRFNAME, LIBSECUR, REFLIBS, FONTS, ATTRTABLE, GENERATIONS, FORMAT, FORMAT+MASK..ENDMASKS alone and all 28 pairs of the first eight, each at its grammatical position. Values the format cannot carry faithfully (even-length strings ending in NUL, records over the length limit) are not streams of the grammar and are skipped (counted as 'skipped-unrepresentable', not as executions).",
+                "streams = reference_encoder(value) ++ trailing bytes, for {} Dates deviate over {{witness, all 0, all -1, all MIN, all MAX, calendar, impossible/mixed}}. Trailing bytes after ENDLIB (costed, 14 alternatives): 1/2/3/4/2044/2048 zero bytes, 1/2/3/2048 bytes 0xFF, a second ENDLIB, a HEADER record, a whole structure, an undefined record. Expected-error half (costed, 37 alternatives): each of LIBDIRSIZE, SRFNAME, LIBSECUR, REFLIBS, FONTS, ATTRTABLE, GENERATIONS, FORMAT, FORMAT+MASK..ENDMASKS alone and all 28 pairs of the first eight, each at its grammatical position. The envelope (trailing bytes / unsupported records) is one more costed choice: it combines with every structural shape, and with at most one value deviation (none in the single and triples families). Values the format cannot carry faithfully (even-length strings ending in NUL, records over the length limit) are not streams of the grammar and are skipped (counted as 'skipped-unrepresentable', not as executions).",
                 space_rule(t)
             ),
             assumptions: vec![
@@ -129,9 +129,12 @@ impl CaseDriver for C03 {
         t.pick(1, 2)
     }
     fn gen(&self, t: Tier, c: &mut Chooser) -> C03Case {
-        let g = gen_lib(t, c, &[0, 1, 2, 3, 4]);
-        let trailing = c.cost(TRAIL_NAMES.len(), "trailing");
-        let extras = c.cost(N_EXTRAS, "unsupported-records");
+        let g = gen_lib(t, c, families(t));
+        // the envelope (trailing bytes, unsupported records) combines with an all-witness value in the
+        // large families and with at most one value deviation in the small ones
+        let prior = if g.family == "single" || g.family == "triples" { 0 } else { 1 };
+        let trailing = if c.deviations() <= prior { c.cost(TRAIL_NAMES.len(), "trailing") } else { 0 };
+        let extras = if c.deviations() <= prior { c.cost(N_EXTRAS, "unsupported-records") } else { 0 };
         C03Case { lib: g.lib, family: g.family, trailing, extras }
     }
     fn check(&self, case: &C03Case, key: &str, cx: &mut Cx) {
@@ -212,11 +215,11 @@ impl CaseDriver for C03 {
         json!({"family": case.family, "encoded_value": render_lib(&enc), "trailing": TRAIL_NAMES[case.trailing],
                "unsupported_records": used.iter().map(|u| UNSUP_NAMES[*u]).collect::<Vec<_>>(), "stream": render_bytes(&bytes, 2000)})
     }
-    fn guards(&self, _t: Tier, stats: &Stats, _d: u64) -> Result<(), String> {
+    fn guards(&self, t: Tier, stats: &Stats, _d: u64) -> Result<(), String> {
         let req: Vec<&str> = REQUIRED_TAGS.iter().copied().filter(|t| *t != "xy:over-limit").collect();
         require_tags(stats, &req)?;
         require_tags(stats, OK_KIND_TAGS)?;
-        require_tags(stats, FAMILY_TAGS)?;
+        require_families(t, stats)?;
         require_tags(stats, &TRAIL_NAMES)?;
         require_tags(stats, &UNSUP_NAMES)?;
         require_outcomes(stats, &["ok", "err-unsupported", "skipped-unrepresentable"])?;
